@@ -46,6 +46,46 @@ type gCase struct {
 	Maps  []map[string]gRef `json:"maps"`
 	IMaps []gRef            `json:"imaps"`
 	MMaps []map[string]gRef `json:"mmaps"`
+	Probe string            `json:"probe"` // fixed shapes outside the node family: "selfptr" (D3), "interior" (D4)
+}
+
+// gPoint / gInterior: two pointers into a by-value field that is copied after the first of them
+type gPoint struct{ X, Y int }
+type gInterior struct {
+	P1 *int
+	A  gPoint
+	P2 *int
+}
+
+func runGraphProbe(kind string) (mis []string) {
+	defer func() {
+		if r := recover(); r != nil {
+			mis = append(mis, fmt.Sprint("panic: ", r))
+		}
+	}()
+	switch kind {
+	case "selfptr":
+		// a config type that points to itself through a plain pointer field, no cycle in the value at all
+		d, err := dials.Config(context.Background(), &GNode{V: 1})
+		if err != nil {
+			mis = append(mis, "Config failed: "+err.Error())
+		} else if d.View().V != 1 {
+			mis = append(mis, "Config: the view lost the value")
+		}
+	case "interior":
+		r := &gInterior{}
+		r.P1, r.P2 = &r.A.X, &r.A.X
+		d, err := dials.Config(context.Background(), r)
+		if err != nil {
+			mis = append(mis, "Config failed: "+err.Error())
+			return
+		}
+		v := d.View()
+		if v.P1 != v.P2 {
+			mis = append(mis, "interior pointers: references that were identical in the input are different objects in the copy (P1, P2 = &A.X)")
+		}
+	}
+	return mis
 }
 
 func gBuild(c gCase) []*GNode {
@@ -321,7 +361,12 @@ func graphMain(args []string) {
 		}
 		fmt.Fprintf(out, "{\"begin\":%q}\n", c.ID)
 		out.Flush()
-		mis := runGraphCase(c)
+		var mis []string
+		if c.Probe != "" {
+			mis = runGraphProbe(c.Probe)
+		} else {
+			mis = runGraphCase(c)
+		}
 		var ms []map[string]any
 		for _, m := range mis {
 			ms = append(ms, map[string]any{"kind": "prop", "detail": m})
